@@ -225,6 +225,52 @@ Theorem C09_interval_first_tick_cancel_safe : forall iv evs,
 Proof. exact interval_first_tick_cancel_safe. Qed.
 Print Assumptions C09_interval_first_tick_cancel_safe.
 
+(* AFTER ANY POLL OUTCOME EVERY EXPIRED TIMER HAS BEEN WOKEN.  poll_with = the
+   driver poll (any outcome: completions found, TimedOut, Interrupted) followed
+   by the wake of the wheel: when it returns, every timer whose deadline the
+   clock has reached is complete and its registered waker has been invoked; the
+   wheel holds only timers that are not yet due, and all of those. *)
+Theorem C09_poll_wakes_all_expired : forall ans now w,
+  wf w -> ans <> DError ->
+  exists ws w',
+    poll_with ans now w = Ok (ws, w') /\ wf w' /\
+    (forall k s, In (k, s) (wmap w) -> kdl k <= now ->
+       is_completed k w' = true /\ forall wk, s = Some wk -> In wk ws) /\
+    (forall k, In k (keys_of (wmap w')) -> now < kdl k) /\
+    (forall e, In e (wmap w) -> now < kdl (fst e) -> In e (wmap w')).
+Proof. exact poll_wakes_all_expired. Qed.
+Print Assumptions C09_poll_wakes_all_expired.
+
+(* "wake the wheel only when the driver timed out" is REFUTED: under that
+   counter-model (poll_with_timeout_only, not the code) a run in which every
+   poll finds a completion — other tasks keep the driver busy — never wakes
+   anything, however long it lasts and however far the clock is past the
+   deadline; the timer (50,0) of ex_wheel stays pending with its waker never
+   invoked, while the real poll_with completes it at the first poll. *)
+Lemma C09_wake_only_on_timeout_refuted :
+  wf (mkwheel 3 [(mkkey 50 0, Some 7%N); (mkkey 50 1, Some 8%N); (mkkey 90 2, Some 9%N)]) /\
+  (forall ts w,
+     (forall t, In t ts -> fst t = DOk \/ fst t = DInterrupted) ->
+     timeout_only_run w ts = Ok (map (fun _ => []) ts, w)) /\
+  (let w := mkwheel 3 [(mkkey 50 0, Some 7%N); (mkkey 50 1, Some 8%N); (mkkey 90 2, Some 9%N)] in
+   exists wss w',
+     timeout_only_run w [(DOk, 60); (DOk, 70); (DInterrupted, 80); (DOk, 1000000)] = Ok (wss, w') /\
+     concat wss = [] /\ is_completed (mkkey 50 0) w' = false /\
+     poll_with DOk 60 w = Ok ([7%N; 8%N], mkwheel 3 [(mkkey 90 2, Some 9%N)])).
+Proof.
+  split; [|split].
+  - pose proof C09_reachable_wf as R.
+    assert (E : exists outs, run wheel_new
+      [OInsert 0 50; OInsert 0 50; OInsert 0 90;
+       OSetWaker (mkkey 50 0) 7%N; OPoll (mkkey 50 1) 8%N; OSetWaker (mkkey 90 2) 9%N]
+      = Ok (outs, mkwheel 3 [(mkkey 50 0, Some 7%N); (mkkey 50 1, Some 8%N); (mkkey 90 2, Some 9%N)])).
+    { vm_compute. eexists. reflexivity. }
+    destruct E as [outs E]. eapply R. exact E.
+  - exact timeout_only_stuck.
+  - vm_compute. eexists _, _. repeat split.
+Qed.
+Print Assumptions C09_wake_only_on_timeout_refuted.
+
 (* ---------------------------------------------------------------------- *)
 (* non-vacuity: concrete non-trivial states meeting the hypotheses          *)
 
